@@ -3,6 +3,7 @@ package main
 import (
 	"flag"
 	"fmt"
+	"go/types"
 	"os"
 	"path/filepath"
 	"sort"
@@ -159,6 +160,52 @@ func cmdCheck(args []string) int {
 		funcs = append(funcs, shortPkg(c.Pkg)+"."+c.Key)
 		hashes[shortPkg(c.Pkg)+"."+c.Key] = c.Hash()
 	}
+	// package initialisers establish the `global` facts tagged with this property
+	initCons := map[string]*Contract{}
+	for _, gf := range e.globals {
+		has := false
+		for _, p := range gf.Props {
+			if p == prop {
+				has = true
+			}
+		}
+		if !has {
+			continue
+		}
+		c := initCons[gf.Pkg]
+		if c == nil {
+			c = &Contract{Kind: "func", Pkg: gf.Pkg, Key: "init", Loops: map[int]*LoopSpec{}, Flags: map[string]string{}, Props: []string{prop}, Model: "int"}
+			initCons[gf.Pkg] = c
+		}
+		c.Ensures = append(c.Ensures, gf.Clause)
+		c.Text = append(c.Text, "global "+gf.Clause.Src)
+	}
+	for _, c := range initCons {
+		if *only != "" && !strings.Contains("init", *only) {
+			continue
+		}
+		u := e.VerifyFunc(c)
+		units = append(units, u)
+		obls = append(obls, u.Obls...)
+		funcs = append(funcs, shortPkg(c.Pkg)+".init")
+		// the fact may be assumed elsewhere only if the variable is written by the initialiser alone
+		for _, en := range c.Ensures {
+			for _, name := range identsOf(en.E) {
+				if obj := e.lookupObject(c.Pkg, name); obj != nil {
+					if v, ok := obj.(*types.Var); ok {
+						if g := e.globalFor(v); g != nil {
+							ok2 := e.globalImmutable(g)
+							o := &Obligation{Name: shortPkg(c.Pkg) + ".init/global-assigned-only-by-init." + name, Kind: "global-immutable", Func: shortPkg(c.Pkg) + ".init", Goal: "true", PC: "true", Unit: u, Props: []string{prop}, Structural: true, StructOK: ok2, Desc: "package-level variable " + name + " is assigned only by the package initialiser (scan of every store and address-taking call argument in the repository)"}
+							if !ok2 {
+								o.Note = "assigned outside init"
+							}
+							obls = append(obls, o)
+						}
+					}
+				}
+			}
+		}
+	}
 	for _, lm := range e.lemmas {
 		if lm.Axiom {
 			continue
@@ -302,4 +349,35 @@ func cmdDump(args []string) {
 			fn.WriteTo(os.Stdout)
 		}
 	}
+}
+
+func identsOf(e Expr) []string {
+	var out []string
+	var walk func(e Expr)
+	walk = func(e Expr) {
+		switch x := e.(type) {
+		case *EIdent:
+			out = append(out, x.Name)
+		case *EUn:
+			walk(x.X)
+		case *EBin:
+			walk(x.X)
+			walk(x.Y)
+		case *ECall:
+			for _, a := range x.Args {
+				walk(a)
+			}
+		case *ESel:
+			walk(x.X)
+		case *EIndex:
+			walk(x.X)
+			walk(x.I)
+		case *ESlice:
+			walk(x.X)
+		case *EQuant:
+			walk(x.Body)
+		}
+	}
+	walk(e)
+	return out
 }
